@@ -407,6 +407,8 @@ func (h *H) monitor() {
 			jr := h.jobByTag[t]
 			if len(jr.Ends) > 0 {
 				ended++
+			} else if len(jr.Starts) > 0 {
+				// executing: it was accepted and is not finished, so it must still be counted
 			} else if jr.Rejected || jr.anyClose() || h.maybePurged(jr) || !jr.Accepted || jr.Q.Closed || len(h.QCloses) > 0 {
 				gone++
 			}
@@ -769,7 +771,10 @@ func (h *H) judgeHandles(crashed bool) {
 		case "BatchWait":
 			b := h.Batches[c.Batch]
 			for _, t := range b.Tags {
-				if !h.releaseCause(h.jobByTag[t], c.Ret) && !h.qcloseBegan(b.Q, c.Ret) {
+				// (an item that never starts may have been rejected by a queue Close that had begun; one that
+				// does start was accepted, and then only its end, a cancel or a purge releases the batch)
+				jr := h.jobByTag[t]
+				if !h.releaseCause(jr, c.Ret) && (len(jr.Starts) > 0 || !h.qcloseBegan(b.Q, c.Ret)) {
 					h.viol("C05", "C05.early", "batch Wait returned before every item finished")
 				}
 			}
